@@ -263,7 +263,8 @@ class FrozenValuer:
             sn.put(("uni", name, lo, hi, "liq"), Fraction(L), val(a0, a1))
             sn.put(("uni", name, lo, hi, "pend0"), p0, val(p0, Fraction(0)))
             sn.put(("uni", name, lo, hi, "pend1"), p1, val(Fraction(0), p1))
-            sn.extra[("uni", name, lo, hi)] = {"a0": a0, "a1": a1, "p0": p0, "p1": p1, "L": L, "transferred": bool(pos.transferred), "counted": counted}
+            sn.extra[("uni", name, lo, hi)] = {"a0": a0, "a1": a1, "p0": p0, "p1": p1, "L": L, "transferred": bool(pos.transferred), "counted": counted,
+                                               "v0": Fraction(abs(L) * Q96, s) / 10 ** u["d0"], "v1": Fraction(abs(L) * s, Q96) / 10 ** u["d1"]}
 
     def _aave_state(self, m):
         sup = getattr(m, "_supplies", None)
